@@ -26,6 +26,9 @@ type Graph struct {
 	P       *Prog
 	Sites   map[*Func][]*Site
 	summary map[*Func]map[string]bool
+	// AsyncSite, when set, reports call sites that never run on the caller's goroutine
+	// (inside a closure that is only ever started by go / time.AfterFunc)
+	AsyncSite func(*Site) bool
 }
 
 // memberField resolves e to (named struct type, field name) if e selects a field.
@@ -347,7 +350,7 @@ func (g *Graph) SyncReach(fn *Func) map[*Func]bool {
 		cur := work[len(work)-1]
 		work = work[:len(work)-1]
 		for _, s := range g.Sites[cur] {
-			if s.Kind != "CALL" || s.InGo || s.Ref {
+			if s.Kind != "CALL" || s.InGo || s.Ref || (g.AsyncSite != nil && g.AsyncSite(s)) {
 				continue
 			}
 			if t := g.P.ByObj[s.To]; t != nil && !seen[t] {
